@@ -80,7 +80,7 @@ def run_property(pid, tier, seed, only=None):
         print('INCONCLUSIVE property=%s reason=build: %s' % (pid, str(errs[0])[:2000])); return 2
     obs = spec['obligations'](tier)
     if only: obs = [o for o in obs if any(x in o.fn for x in only)]
-    base_timeout = spec.get('timeout', {}).get(tier, 300 if quick else 1800)
+    base_timeout = spec.get('timeout', {}).get(tier, 600 if quick else 1800)
     nval = spec.get('validate', {}).get(tier, 10 if quick else 40)
     jobs = []
     for ob in obs:
